@@ -118,12 +118,17 @@ func SNPFamilyValidateFunc(familyID string, opts *Options) func(*spb.Attestation
 			serializedEndorsement = blob
 
 		}
-		opts.SNP.Measurement = measurement
+		// The returned function may be called repeatedly and concurrently, so the report's measurement
+		// goes in a per-call copy of the options rather than in the caller-shared value.
+		callOpts := *opts
+		snpOpts := *opts.SNP
+		snpOpts.Measurement = measurement
+		callOpts.SNP = &snpOpts
 		// Prefer the endorsement provided by the caller.
-		if opts.Endorsement != nil {
-			return EndorsementProto(opts.Endorsement, opts)
+		if callOpts.Endorsement != nil {
+			return EndorsementProto(callOpts.Endorsement, &callOpts)
 		}
-		return Endorsement(serializedEndorsement, opts)
+		return Endorsement(serializedEndorsement, &callOpts)
 	}
 }
 
